@@ -158,7 +158,9 @@ class ConcurrentComparer {
     T result = EXTREMUM;
     _storage.for_each([&](const Slot& slot) {
       if (slot.version == _version) {
-        if (_comparer(slot.value, result)) {
+        // the first recorded value counts even when it equals the extremum
+        // the search starts from
+        if (!has_result || _comparer(slot.value, result)) {
           result = slot.value;
           has_result = true;
         }
